@@ -10,5 +10,4 @@ INVARIANT RoundTripLaw
 INVARIANT WidenLaw
 INVARIANT ChangeLaw
 INVARIANT PresenceLaw
-INVARIANT AsciiLaw
 CONSTRAINT EmitLoc
